@@ -11,8 +11,9 @@ EXPLANATION = (
     "unwrap/expect reaches such a field without a dominating is_some; (d) the four error-conversion tables are compared "
     "exactly with the expected classes (application close, timeout, reset/stop with the peer's code by pure flow, "
     "connection lost -> connection-level, the rest -> Unknown/Undefined); (e) BidiStream's trait impls are pure "
-    "forwarders to its halves. Byte delivery over real Quinn under flow control is not decided.")
-RULES = "C17-a overlapping write refused (A2); C17-b advance by what Quinn accepted, buffer kept across Pending (A4/A8); C17-c identifiers never panic (A9/A14); C17-d error tables (A3); C17-e forwarders (A13)"
+    "forwarders to its halves. Byte delivery over real Quinn under flow control is not decided."
+    " C17-d also restricts who may construct StreamErrorIncoming / ConnectionErrorIncoming / SendDatagramErrorIncoming in the adapter to the conversion tables and a short audited list, so that no Quinn error reaches h3 unclassified.")
+RULES = "C17-a overlapping write refused (A2); C17-b advance by what Quinn accepted, buffer kept across Pending (A4/A8); C17-c identifiers never panic (A9/A14); C17-d error tables and who may build a transport error (A3/A10); C17-e forwarders (A13)"
 
 Q = "h3_quinn::"
 SS = "<h3_quinn::SendStream as h3::quic::SendStream<B>>::"
